@@ -106,6 +106,11 @@ SCENARIOS = [
     ("return-value-vs-yield-value",
      'var f = Fiber.new(|| { Fiber.yield([1]); return (2,); });\nprint(f.call()); print(f.call()); print(f.has_finished());',
      ["[1]", "(2,)", "true"], "ok"),
+    ("closure-from-a-finished-fiber-keeps-its-variables",
+     'fn spawn(tag) { var fb = Fiber.new(|| { var n = 40; return || { n = n + 1; return tag + String.from(n); }; }); return fb.call(); }\n'
+     'var c1 = spawn("a"); var c2 = spawn("b"); print(c1()); print(c2()); var junk = []; var i = 0; while i < 200 { junk.push([i, "s" + String.from(i)]); i = i + 1; } junk = nil;\n'
+     'print(c1()); print(c1()); print(c2());',
+     ["a41", "b41", "a42", "a43", "b42"], "ok"),
 ]
 
 
